@@ -19,7 +19,12 @@ func famDial(w *World) {
 	srv := w.addNode(NodeOpts{Name: "s0", Service: "svc0", Host: "10.0.2.1", Port: 5000, Conn: w.connOpts()})
 	srv.Ch.Register(&echoHandler{w: w, n: srv}, "echo")
 	cli := w.addNode(NodeOpts{Name: "c0", Service: "client0", Host: "10.0.3.1", Conn: w.connOpts()})
-	mode := scn(4)
+	mode := scn(6)
+	if mode >= 4 {
+		// a slow dial AND a held-back handshake reply on the same attempt: each is within the
+		// deadline alone, together they are not - unless connect time is charged to the caller
+		w.Net.DialFault[srv.HostPort] = &DialFault{Kind: 3, Delay: time.Duration(1+scn(200)) * w.Grid, Count: 1 + scn(2)}
+	}
 	switch mode {
 	case 0:
 		w.Net.DialFault[srv.HostPort] = &DialFault{Kind: 2, Count: 1 + scn(2)} // hang until the dialler's context ends
@@ -27,7 +32,7 @@ func famDial(w *World) {
 		w.Net.DialFault[srv.HostPort] = &DialFault{Kind: 3, Delay: time.Duration(1+scn(200)) * w.Grid, Count: 1 + scn(2)}
 	case 2:
 		w.Net.DialFault[srv.HostPort] = &DialFault{Kind: 1, Count: 1 + scn(3)}
-	case 3:
+	case 3, 4, 5:
 		// the dial succeeds but the handshake reply is held back
 		dur := time.Duration(1+scn(300)) * w.Grid
 		if scnChance(1, 4) {
